@@ -604,6 +604,8 @@ class Interp:
         f = self.ev(e.func, env) if not isinstance(e.func, ast.Name) else None
         if isinstance(f, BoundMethod):
             base = f.base
+            if getattr(type(base), '_interp_safe', False) and hasattr(base, f.attr):
+                return getattr(base, f.attr)(*args, **kwargs)        # a stand-in object written by the rule itself
             if isinstance(base, re.Pattern) and f.attr in ('sub', 'subn'):
                 repl = args[0]
                 return getattr(base, f.attr)((lambda m: repl(m)) if callable(repl) else repl, *args[1:], **kwargs)
